@@ -323,7 +323,11 @@ Definition call_node (p : tpos) (callee : string) (args : list expr) (sigs : lis
   (tys : list (ty * tpos)) : ty * list diag :=
   match resolve p sigs tys with
   | inl sig => builtin_call p callee args sig
-  | inr errs => (TAny, errs)
+  | inr errs =>
+      (* whether the function may be called here does not depend on whether its arguments fit
+         (from a8? on: checkSpecialFunctionAvailability runs before the overloads are tried) *)
+      (TAny, (if mem (lower callee) (e_special E) && negb (mem (lower callee) (e_spavail E))
+              then [mkdiag p DFuncNotAllowed] else []) ++ errs)
   end.
 
 (* nw = None: sema.check;  nw = Some truthy: sema.checkWithNarrowing(_, truthy) *)
